@@ -33,7 +33,8 @@ __CPROVER_ensures(IMPLIES(__CPROVER_return_value == NC_NOERR, *xp == (uint)g_val
 int HG(hdr_get_uint64)(bufferinfo *gbp, uint64 *xp) NEXTVAL_CONTRACT
 __CPROVER_ensures(IMPLIES(__CPROVER_return_value == NC_NOERR, *xp == g_vals[__CPROVER_old(g_vi)]));
 int HG(hdr_get_nc_type)(bufferinfo *gbp, nc_type *xp)
-__CPROVER_assigns(*xp) __CPROVER_ensures(IMPLIES(__CPROVER_return_value == NC_NOERR, *xp >= NC_BYTE && *xp <= NC_UINT64));
+__CPROVER_assigns(*xp) __CPROVER_ensures(__CPROVER_return_value <= 0 && __CPROVER_return_value != NC_ENULLPAD)
+__CPROVER_ensures(IMPLIES(__CPROVER_return_value == NC_NOERR, *xp >= NC_BYTE && *xp <= NC_UINT64));
 int HG(hdr_get_NC_name)(bufferinfo *gbp, char **namep, size_t *name_len)
 __CPROVER_assigns(*namep, *name_len)
 /* pointer_equals: the name is a heap object the parser may later free */
@@ -42,18 +43,21 @@ __CPROVER_ensures(__CPROVER_return_value != NC_NOERR ==> __CPROVER_pointer_equal
 __CPROVER_ensures(*name_len <= 3);
 int HG(hdr_get_NC_attrarray)(bufferinfo *gbp, NC_attrarray *ncap)
 __CPROVER_assigns(*ncap) __CPROVER_ensures(1);
-/* allocation of the variable object: dimids array sized by the ndims it is given */
+/* allocation of the variable object: a stub with a body (a pointer handed out by a replaced contract
+ * makes every later store a case split over all objects - OOM).  The object is g_var_obj with a dimids
+ * array of exactly NDIMS_C entries; allocation failure is outside every property. */
 NC_var *ncmpio_new_NC_var(char *name, size_t name_len, int ndims)
-__CPROVER_requires(ndims >= 0 && ndims <= NC_MAX_VAR_DIMS) /*@allocation_only_after_the_limit_check*/
-__CPROVER_requires(ndims == NDIMS_C && g_new_calls == 0)
-__CPROVER_assigns(g_new_calls, g_new_null)
-__CPROVER_ensures(g_new_calls == 1)
-/* the object is provided by the harness (g_var_obj with a dimids array of exactly NDIMS_C entries) */
-__CPROVER_ensures(g_new_null ? __CPROVER_pointer_equals(__CPROVER_return_value, g_null_ptr) : __CPROVER_pointer_equals(__CPROVER_return_value, g_var_ptr))
-;
+{
+    __CPROVER_assert(ndims >= 0 && ndims <= NC_MAX_VAR_DIMS, "allocation_only_after_the_limit_check");
+    __CPROVER_assert(ndims == NDIMS_C && g_new_calls == 0, "one_allocation_of_the_announced_shape");
+    g_new_calls++;
+    return &g_var_obj;
+}
 void ncmpio_free_NC_var(NC_var *varp)
-__CPROVER_requires(varp != NULL && varp == g_var_ptr && !g_new_null) /*@only_the_allocated_variable_is_released*/
-__CPROVER_assigns(g_free_calls) __CPROVER_ensures(g_free_calls == __CPROVER_old(g_free_calls) + 1);
+{
+    __CPROVER_assert(varp == &g_var_obj && g_new_calls == 1 && g_free_calls == 0, "only_the_allocated_variable_is_released_once");
+    g_free_calls++;
+}
 int ncmpii_xlen_nc_type(nc_type xtype, int *size) __CPROVER_assigns(*size) __CPROVER_ensures(1);
 
 int HG(hdr_get_NC_var)(bufferinfo *gbp, NC_var **varpp, int f_ndims)
@@ -64,8 +68,10 @@ __CPROVER_frees(g_name_ptr)
 __CPROVER_assigns(*varpp, g_vi, g_dec_failed, g_new_calls, g_new_null, g_free_calls, __CPROVER_object_whole(&g_var_obj), __CPROVER_object_whole(g_dimids))
 __CPROVER_ensures(IMPLIES(g_dec_failed, __CPROVER_return_value != NC_NOERR && __CPROVER_return_value != NC_ENULLPAD)) /*@C11_failed_header_read_never_becomes_success*/
 __CPROVER_ensures(IMPLIES(VAL(0) > NC_MAX_VAR_DIMS, __CPROVER_return_value != NC_NOERR && g_new_calls == 0)) /*@too_many_dimensions_rejected_before_allocation*/
-__CPROVER_ensures(IMPLIES(__CPROVER_return_value == NC_NOERR || __CPROVER_return_value == NC_ENULLPAD, *varpp == &g_var_obj && !g_new_null && g_new_calls == 1 && g_free_calls == 0 &&
-      g_var_obj.ndims == NDIMS_C && g_var_obj.dimids == g_dimids && IMPLIES(NDIMS_C > 0, g_dimids[G] >= 0 && g_dimids[G] < f_ndims && g_dimids[G] == (int)VAL(1 + G)))) /*@accepted_variable_names_only_existing_dimensions*/
+#define ACCEPTED (__CPROVER_return_value == NC_NOERR || __CPROVER_return_value == NC_ENULLPAD)
+__CPROVER_ensures(IMPLIES(ACCEPTED, *varpp == &g_var_obj && !g_new_null && g_new_calls == 1 && g_free_calls == 0)) /*@accepted_variable_is_the_allocated_one_and_not_released*/
+__CPROVER_ensures(IMPLIES(ACCEPTED, g_var_obj.ndims == NDIMS_C && g_var_obj.dimids == g_dimids)) /*@accepted_variable_shape_fields_intact*/
+__CPROVER_ensures(IMPLIES(ACCEPTED && NDIMS_C > 0, g_dimids[G] >= 0 && g_dimids[G] < f_ndims && g_dimids[G] == (int)VAL(1 + G))) /*@accepted_variable_names_only_existing_dimensions*/
 __CPROVER_ensures(IMPLIES(NDIMS_C > 0 && VAL(1 + G) >= (unsigned long long)IN_f_ndims && VAL(0) == NDIMS_C && (G == 0 || VAL(1) < (unsigned long long)IN_f_ndims),
       __CPROVER_return_value != NC_NOERR && __CPROVER_return_value != NC_ENULLPAD)) /*@dimension_id_out_of_range_rejected*/
 __CPROVER_ensures(IMPLIES(__CPROVER_return_value != NC_NOERR && __CPROVER_return_value != NC_ENULLPAD && !g_new_null && g_new_calls == 1, g_free_calls == 1)) /*@C17_rejected_variable_released*/
